@@ -159,3 +159,74 @@ Lemma o_option_written first emitted_list o implicit_bin : existsb e_error emitt
   Some (map (fun e => {| o_dest := ToFile (e_path e); o_format := e_format e; o_tape_name := e_name e |}) emitted_list
         ++ [o_option_output o]).
 Proof. intros H. unfold cli_outputs. rewrite H, o_option_wins. reflexivity. Qed.
+
+(* ------------------------------------------------------------------ -o: file or standard output *)
+Lemma split_on_nonempty sep p : split_on sep p <> [].
+Proof.
+  induction p as [|c r IH]; cbn [split_on]; [discriminate|].
+  destruct (Ascii.eqb c sep); [discriminate|]. destruct (split_on sep r); [contradiction|discriminate].
+Qed.
+
+(* a component holds characters of the string only, and never the separator *)
+Lemma split_on_chars sep p : forall c, In c (split_on sep p) -> (forall x, In x c -> In x p) /\ ~ In sep c.
+Proof.
+  induction p as [|a r IH]; cbn [split_on]; intros c H.
+  - destruct H as [<- | []]. split; [intros x []|intros []].
+  - destruct (Ascii.eqb a sep) eqn:E.
+    + destruct H as [<- | H]; [split; [intros x []|intros []]|].
+      destruct (IH c H) as [I1 I2]. split; [intros x Hx; right; auto|exact I2].
+    + destruct (split_on sep r) as [|h t] eqn:S; [exfalso; exact (split_on_nonempty sep r S)|].
+      destruct H as [<- | H].
+      * destruct (IH h (or_introl eq_refl)) as [I1 I2]. split.
+        -- intros x [<- | Hx]; [left; reflexivity | right; auto].
+        -- intros [Hs | Hs]; [subst; rewrite Ascii.eqb_refl in E; discriminate | exact (I2 Hs)].
+      * destruct (IH c (or_intror H)) as [I1 I2]. split; [intros x Hx; right; auto|exact I2].
+Qed.
+
+Lemma last_in {A} (l : list A) d : l <> [] -> In (last l d) l.
+Proof.
+  induction l as [|a r IH]; [contradiction|]. intros _. destruct r as [|b t]; [left; reflexivity|].
+  right. apply IH. discriminate.
+Qed.
+
+Lemma last_comp_chars sep p : (forall x, In x (last_comp sep p) -> In x p) /\ ~ In sep (last_comp sep p).
+Proof. apply split_on_chars. apply last_in. apply split_on_nonempty. Qed.
+
+Lemma contains_in c p : contains c p = true <-> In c p.
+Proof.
+  unfold contains. rewrite existsb_exists. split.
+  - intros (x & Hx & E). apply Ascii.eqb_eq in E. subst. exact Hx.
+  - intros H. exists c. split; [exact H | apply Ascii.eqb_refl].
+Qed.
+
+(* standard output is chosen by the WHOLE argument: an argument with a directory part -- "./-",
+   "out/-.bin" -- always names a file *)
+Lemma o_option_with_directory outfile : contains slash outfile = true ->
+  o_dest (o_option_output outfile) = ToFile outfile.
+Proof.
+  intros H. apply contains_in in H. unfold o_option_output. cbn [o_dest].
+  destruct (str_eqb outfile (s "-")) eqn:E1.
+  { apply str_eqb_eq in E1. subst. exfalso. cbn in H. destruct H as [H | []]. discriminate H. }
+  cbn [orb].
+  match goal with |- (if str_eqb outfile (s "-." ++ ?e) then _ else _) = _ => set (ext := e) end.
+  destruct (str_eqb outfile (s "-." ++ ext)) eqn:E2; [|reflexivity]. exfalso.
+  apply str_eqb_eq in E2. rewrite E2 in H. cbn [s list_ascii_of_string app In] in H.
+  destruct H as [H | [H | H]]; [discriminate H | discriminate H |].
+  subst ext. destruct (contains dot (last_comp slash outfile)); [|destruct H].
+  destruct (last_comp_chars dot (last_comp slash outfile)) as [I1 _].
+  destruct (last_comp_chars slash outfile) as [_ I2]. apply I2, I1, H.
+Qed.
+
+Lemma o_option_stdout_only outfile : o_dest (o_option_output outfile) = ToStdout ->
+  outfile = s "-" \/ exists ext, outfile = s "-." ++ ext /\ ~ In dot ext /\ ~ In slash ext.
+Proof.
+  unfold o_option_output. cbn [o_dest].
+  destruct (str_eqb outfile (s "-")) eqn:E1; [left; apply str_eqb_eq; exact E1|]. cbn [orb].
+  match goal with |- (if str_eqb outfile (s "-." ++ ?e) then _ else _) = _ -> _ => set (ext := e) end.
+  destruct (str_eqb outfile (s "-." ++ ext)) eqn:E2; [|discriminate]. intros _. right.
+  exists ext. split; [apply str_eqb_eq; exact E2|]. subst ext.
+  destruct (contains dot (last_comp slash outfile)); [|split; intros []].
+  split; [apply last_comp_chars|].
+  intros Hs. destruct (last_comp_chars dot (last_comp slash outfile)) as [I1 _].
+  destruct (last_comp_chars slash outfile) as [_ I2]. apply I2, I1, Hs.
+Qed.
